@@ -1,6 +1,7 @@
 import TFV.Properties.Tree
 import TFV.Properties.TreeCR
 import TFV.Properties.Src.TreeIdx
+import TFV.Properties.Src.CommonRegion
 #print axioms TFV.Tree.C09_scan_flat
 #print axioms TFV.Tree.C09_size_flat
 #print axioms TFV.Tree.C09_endSub
@@ -25,3 +26,4 @@ import TFV.Properties.Src.TreeIdx
 #print axioms TFV.SrcTie.C09_src_first_difference
 #print axioms TFV.SrcTie.C09_src_find_end_subtree_size
 #print axioms TFV.SrcTie.C09_src_find_id_args_positions
+#print axioms TFV.SrcTie.C09_src_common_region_two_trees
